@@ -38,6 +38,13 @@ NEWTYPE_RANGES = {
 KNOWN_LEN_FNS = {"read_fonts::font_data::FontData::<'a>::len"}
 CONV_NAMES = ("from", "into", "to_u32", "to_u16", "to_i32", "to_i16", "to_usize", "to_u8", "get", "to_raw")
 
+# struct fields of 64-bit integer type that are only ever written with a constant, a bounded value or `field + small
+# constant` and never mutably borrowed ("monotone counters"), filled by callers: (adt path, field name)
+COUNTER_FIELDS = set()
+COUNTER_STEP = 1 << 16
+A_STEPS = ("A-STEPS: a 64-bit counter that starts below 2^62 and grows by at most 2^16 per executed increment cannot "
+           "overflow: that would take more than 2^46 increments of one variable")
+
 # ADT facts (enum discriminant values), filled by callers that have a Facts object: path -> [values]
 ADT_DISCRS = {}
 
@@ -223,6 +230,8 @@ class Intervals:
         self.visits = {}
         self.term_tr = {}        # memory term -> type range (learned when a typed read is seen)
         self.converged = True
+        self.used_steps_assumption = False
+        self._counter_cache = {}
         self._place_cache = {}
         self._ptr_cache = {}
         self._uses = None
@@ -1424,6 +1433,11 @@ class Intervals:
                     return True, "subtrahend <= minuend on this path"
             if base == "Sub" and tr is not None and b is not None and a is not None and b[0] >= 0 and a[0] >= 0 and tr[0] < 0:
                 return True, "difference of two non-negative values fits the signed type"
+            if base == "Add" and ty in ("usize", "u64", "i64", "isize") and a is not None and b is not None:
+                for x, y in ((ops[0], b), (ops[1], a)):
+                    if 0 <= y[0] and y[1] <= COUNTER_STEP and self.is_counter(x):
+                        self.used_steps_assumption = True
+                        return True, "64-bit monotone counter (assumption A-STEPS)"
             if base == "Add" and tr is not None and b is not None and a is not None:
                 # a + c where a < x for some x of the same type: a <= MAX - 1 (and transitively for small constants)
                 for (x, o, y) in st.rel:
@@ -1453,6 +1467,84 @@ class Intervals:
                 return True, "index < len on this path"
             return False, f"index {ix} vs len {ln}"
         return False, kind
+
+    # ---- monotone counters ------------------------------------------------------------------------
+    def is_counter(self, op):
+        """operand reads a 64-bit variable whose every write is a constant, a value below 2^62, or itself + c with
+        0 <= c <= 2^16 (a local of this function, or a struct field registered in COUNTER_FIELDS)"""
+        if op[0] == "k":
+            return False
+        p = op[1]
+        if p[1]:
+            last = p[1][-1]
+            return isinstance(last, list) and last[0] == "f" and len(last) > 3 and (last[3], last[2]) in COUNTER_FIELDS
+        return self._counter_local(p[0], 0)
+
+    def _counter_local(self, l, depth):
+        if l in self._counter_cache:
+            return self._counter_cache[l]
+        self._counter_cache[l] = False
+        b = self.body
+        if depth > 6 or self.body.locals[l][0] not in ("usize", "u64", "i64", "isize"):
+            return False
+        if 0 < l <= b.argc:
+            return False
+        # a mutable borrow of the local lets someone else write it
+        for k, s in self._uses_of(l):
+            if k == "ref" and (s[2][1] == "mut" if s[2][0] == "ref" else "Mut" in str(s[2][1])):
+                return False
+        ds = b.defs().get(l, [])
+        if not ds:
+            return False
+        self._counter_cache[l] = True    # optimistic for self-reference
+        ok = True
+        for (bb, j, rv) in ds:
+            if isinstance(rv, Term):
+                c = rv.callee
+                short = c.split("::")[-1]
+                if short == "len" and re.match(r"^<?(core|alloc|std)::", c):
+                    continue
+                ok = False
+                break
+            k = rv[0]
+            if k == "use":
+                o = rv[1]
+                if o[0] == "k":
+                    c = op_const(o)
+                    if c and c[1] is not None and 0 <= c[1] < (1 << 62):
+                        continue
+                    ok = False
+                    break
+                pl = o[1]
+                if len(pl[1]) == 1 and isinstance(pl[1][0], list) and pl[1][0][0] == "f" and pl[1][0][1] == 0:
+                    sd = b.single_def(pl[0])
+                    if sd is not None and not isinstance(sd[2], Term) and sd[2][0] == "bin" and sd[2][1] == "AddWithOverflow":
+                        x, y = sd[2][2], sd[2][3]
+                        for u, v in ((x, y), (y, x)):
+                            cv = op_const(v) if v[0] == "k" else None
+                            ul = op_local(u)
+                            if cv and cv[1] is not None and 0 <= cv[1] <= COUNTER_STEP and ul is not None and \
+                                    (ul == l or self._counter_local(ul, depth + 1)):
+                                break
+                        else:
+                            ok = False
+                            break
+                        continue
+                    ok = False
+                    break
+                if not pl[1] and self._counter_local(pl[0], depth + 1):
+                    continue
+                if pl[1] and self.is_counter(o):
+                    continue
+                ok = False
+                break
+            elif k == "cast" and rv[1] == "IntToInt" and rv[4] in ("u8", "u16", "u32", "i8", "i16", "i32") and False:
+                continue
+            else:
+                ok = False
+                break
+        self._counter_cache[l] = ok
+        return ok
 
     # ---- slice operations ------------------------------------------------------------------------
     def slice_len(self, st, ptr_op, aty=None):
